@@ -42,6 +42,21 @@ CORE = ["cmd", "model", "clock", "heights", "treeprior"]
 def to_argv(cfg, data):
     ymd = cfg.get("_data") == "ymd"
     same = cfg.get("_data") == "same"
+    cal = cfg.get("_data", "") if str(cfg.get("_data", "")).startswith("cal") else None
+    if cal:
+        import c19_cli as _C
+        sp = cfg.get("_spelling") or "caldec"
+        fmt = None if sp == "caldec" else sp.split(":", 1)[1]
+        tag = _C.cal_tag(fmt)
+        a = [cfg["cmd"], "-i", str(data / f"aln_{cal}_{tag}.fa"), "-t", str(data / f"rooted_{cal}_{tag}.nwk"), "-m", "JC69",
+             "--clock", "strict", "--heights", cfg.get("heights", "ratio")]
+        if cfg["cmd"] in ("mcmc", "map"):
+            a += ["--stem", "out"]
+        if sp.startswith("cal:"):
+            a += ["--date_regex", _C.CAL_REGEX, "--date_format", fmt]
+        elif sp.startswith("calcsv:"):
+            a += ["--dates", str(data / f"dates_{cal}_{tag}.csv"), "--date_format", fmt]
+        return a
     aln = "aln_ymd.fa" if ymd else ("aln_codon.fa" if cfg.get("model") == "MG94" else
                                     "aln_rich.fa" if cfg.get("_data") == "rich" else "aln_same.fa" if same else "aln.fa")
     a = [cfg["cmd"]] + ([] if cfg.get("_poisson") else ["-i", str(data / aln)])
@@ -249,7 +264,7 @@ def precedence():
     base = {"model": "JC69", "categories": 1, "invariant": False, "clock": "strict", "heights": "ratio", "treeprior": None,
             "grid": None, "cutoff": None, "family": "meanfield", "distribution": "Normal", "init": None}
     for cmd in FACTORS["cmd"]:
-        for heights in ("ratio", "shift"):
+        for heights in (("ratio", "shift") if cmd == "hmc" else ("ratio",)):
             b = dict(base, cmd=cmd, heights=heights)
             # --rate R fixes the clock rate: no starting value may replace it
             for extra in (["--rate_init", "0.002"], ["--rate_init", "regression"], ["--heights_init", "regression"]):
@@ -307,13 +322,29 @@ def numeric_spellings():
         yield dict(base, cmd="advi", treeprior="constant", extra=["--coalescent_init", sp])
 
 
+def calendar_dates():
+    """the same sampling dates as decimal years in the names, as calendar dates in the names under every field order of
+    --date_format, and as a csv of calendar strings: the emitted tip dates must be the calendar's (datetime) decimal years"""
+    import c19_cli as _C
+
+    base = {"model": "JC69", "categories": 1, "invariant": False, "clock": "strict", "heights": "ratio", "treeprior": None,
+            "grid": None, "cutoff": None, "family": "meanfield", "distribution": "Normal", "init": None, "cmd": "hmc"}
+    n = len(_C.CAL_FORMATS)
+    for k in range(len(_C.CAL_SETS)):
+        yield dict(base, _data=f"cal{k}", _spelling="caldec")
+        fmts = _C.CAL_FORMATS if k in (0, len(_C.CAL_SETS) - 1) else [_C.CAL_FORMATS[k % n]]
+        for fmt in fmts:
+            yield dict(base, _data=f"cal{k}", _spelling="cal:" + fmt)
+        yield dict(base, _data=f"cal{k}", _spelling="calcsv:" + _C.CAL_FORMATS[(k + 1) % n])
+
+
 def date_spellings():
     """equivalent SPELLINGS of the same sampling dates (the dates in the names read by the default pattern, by an explicit
     --date_regex, from a csv that repeats them; for contemporaneous data also --dates 0), heterochronous and
     contemporaneous data, with and without the regression starts: the emitted model must not depend on the spelling"""
     base = {"model": "JC69", "categories": 1, "invariant": False, "clock": "strict", "heights": "ratio", "treeprior": None,
             "grid": None, "cutoff": None, "family": "meanfield", "distribution": "Normal", "init": None}
-    for cmd in FACTORS["cmd"]:
+    for cmd in ("hmc", "advi"):
         for init in (None, "heights_init_regression", "rate_init_regression", "heights_init_tree"):
             for data, spellings in ((None, ("names", "regex", "csv")), ("same", ("names", "regex", "csv", "dates0"))):
                 for sp in spellings:
